@@ -1,19 +1,12 @@
 """C03 - endian-explicit scalar wrappers, bswap helpers, sign_extend/ext24/ext48."""
 
-# ASan keeps the allocation stack of every malloc in a depot that never shrinks; librapidcheck is built without frame
-# pointers, so the fast unwinder records garbage frames that differ from case to case below depth ~8 and the depot grows by
-# 4-20 KB per rapidcheck case (3 GB per shard at 10^5 cases). Short allocation contexts keep the shards at ~100 MB; the
-# stack of the *faulting* access in a report is not affected. (Same option string as run/check.py SAN_ENV otherwise.)
-ASAN_OPTIONS = ("abort_on_error=0:exitcode=97:detect_leaks=1:allocator_may_return_null=1:detect_stack_use_after_return=0:"
-                "handle_abort=1:symbolize=1:max_allocation_size_mb=4096:malloc_context_size=6:quarantine_size_mb=64")
-
 PROP = dict(
     level="exploration",
     stages=[
-        dict(name="c03_endian", src="harness/c03_endian.cc", env={"ASAN_OPTIONS": ASAN_OPTIONS}, flags=["-fwrapv"],
+        dict(name="c03_endian", src="harness/c03_endian.cc", flags=["-fwrapv"],
              shards_quick=8, shards_thorough=16, timeout_quick=400, timeout_thorough=1500),
         # all 2^32 values; -O2 without sanitizers (throughput; memory safety is covered by the asan stage)
-        dict(name="c03_sweep32", src="harness/c03_endian.cc", env={"ASAN_OPTIONS": ASAN_OPTIONS}, flags=["-fwrapv", "-DC03_SWEEP32"], flavor="o2",
+        dict(name="c03_sweep32", src="harness/c03_endian.cc", flags=["-fwrapv", "-DC03_SWEEP32"], flavor="o2",
              thorough_only=True, shards_thorough=16, timeout_thorough=1500),
     ],
     rule=("exhaustive small scopes: all 24 wrappers {le,be,re} x {u16,s16,u32,s32,u64,s64,float,double} x 19 operations (construct, =, store, "
